@@ -568,6 +568,12 @@ class Inliner:
                     todo.extend(self.bases.get(c, ()))
             if (f.value.id, f.attr) in self.helpers and self.helpers[(f.value.id, f.attr)].static:
                 return self.helpers[(f.value.id, f.attr)], None
+        if isinstance(f, ast.Attribute) and _atomic(f.value) and not (isinstance(f.value, ast.Name) and f.value.id in ("self", "cls")):
+            # `<obj>.m(..)` where m is a helper method and no other class of the program has a method m:
+            # the call can only be that helper's, with <obj> as the receiver
+            owners = [k for k in self.helpers if isinstance(k, tuple) and k[1] == f.attr]
+            if len(owners) == 1 and not self.helpers[owners[0]].static and f.attr not in self.helpers and not any(f.attr in ms for c, ms in self.class_methods.items() if c != owners[0][0]):
+                return self.helpers[owners[0]], f.value
         return None, None
 
     # -- statement walk ------------------------------------------------------------------------------
@@ -576,6 +582,12 @@ class Inliner:
         self.fnode = fnode
         self.cls = cls
         self.changed = False
+        if cls is not None:
+            # `<Class>.m(self, a)` for a helper method m of the class itself is `self.m(a)`
+            for n in ast.walk(fnode):
+                if isinstance(n, ast.Call) and isinstance(n.func, ast.Attribute) and isinstance(n.func.value, ast.Name) and n.func.value.id == cls and (cls, n.func.attr) in self.helpers and not self.helpers[(cls, n.func.attr)].static and n.args and isinstance(n.args[0], ast.Name) and n.args[0].id == "self":
+                    n.func.value = ast.copy_location(ast.Name(id="self", ctx=ast.Load()), n.func.value)
+                    n.args = n.args[1:]
         fnode.body = self.block(fnode.body)
         return self.changed
 
@@ -792,6 +804,11 @@ def references(trees, name, method=None):
                     calls += 1
                 else:
                     other += 1
+            elif isinstance(n, ast.ClassDef) and method is True:
+                # a method named in a class-level statement (a table of methods): a reference by value
+                for st in n.body:
+                    if not isinstance(st, (ast.FunctionDef, ast.AsyncFunctionDef, ast.ClassDef)):
+                        other += sum(1 for x in ast.walk(st) if isinstance(x, ast.Name) and x.id == name and isinstance(x.ctx, ast.Load))
             elif isinstance(n, ast.alias) and n.name == name:
                 pass
             elif isinstance(n, ast.Constant) and n.value == name:
